@@ -376,3 +376,184 @@ def _may_alias(f, tt, a, b, at):
     if a[0] == 'var' and b[0] == 'var':
         return a == b
     return False
+
+
+# ------------------------------------------------------------------------------------------------
+WIDTH = {'int': 32, 'unsigned int': 32, 'long': 64, 'unsigned long': 64, 'long long': 64, 'unsigned long long': 64,
+         'short': 16, 'unsigned short': 16, 'signed char': 8, 'unsigned char': 8, 'char': 8}
+SIGNED = {'int', 'long', 'long long', 'short', 'signed char'}
+UNSIGNED = {'unsigned int', 'unsigned long', 'unsigned long long', 'unsigned short', 'unsigned char'}
+
+
+def rule_signed_arith(m):
+    """F-SOVF: arithmetic on unsigned library quantities is not carried out in a signed type of the same or smaller width."""
+    res = RuleResult('F-SOVF', 'no +, - or * is evaluated in a signed integer type on operands converted from an unsigned type '
+                               'at least as wide (multiplicities, counts, indices): every value of the unsigned type must be '
+                               'representable in the type the arithmetic is done in, else the operation can overflow (undefined '
+                               'behaviour)')
+    CASTS = ('ImplicitCastExpr', 'CStyleCastExpr', 'CXXStaticCastExpr', 'CXXFunctionalCastExpr')
+    for f in list(m.fns) + _fixture_functions('signed_arith'):
+        if not f.tname.startswith(NS):
+            continue
+        for n in f.nodes:
+            if n['k'] != 'BinaryOperator' or n.get('op') not in ('+', '-', '*') or n.get('t') not in SIGNED:
+                continue
+            rt = n['t']
+            srcs = []
+            for c in n['c']:
+                x = c
+                while x >= 0 and f.nodes[x]['k'] == 'ParenExpr':
+                    x = f.nodes[x]['c'][0]
+                hops = 0
+                while x >= 0 and f.nodes[x]['k'] in CASTS and hops < 4:
+                    xn = f.nodes[x]
+                    inner = [k for k in xn['c'] if k >= 0]
+                    if not inner:
+                        break
+                    it = f.nodes[inner[0]].get('t', '').replace('const ', '')
+                    if xn.get('ck') == 'IntegralCast' and it in UNSIGNED and xn.get('t', '').replace('const ', '') in SIGNED:
+                        srcs.append((it, x))
+                    x = inner[0]
+                    hops += 1
+            if not srcs:
+                continue
+            res.sites += 1
+            bad = [(it, x) for it, x in srcs if WIDTH.get(it, 0) >= WIDTH.get(rt, 0)]
+            if bad:
+                res.fail(Finding('F-SOVF', f.display(), 'signed arithmetic `%s`' % f.expr_text(n['i'])[:50], f.nloc(n['i']),
+                                 '`%s` is evaluated in `%s` on a value converted from `%s`: values above the maximum of `%s` wrap '
+                                 'on conversion and the operation can overflow the signed type (undefined behaviour); use a wider '
+                                 'signed type or unsigned arithmetic' % (f.expr_text(n['i'])[:60], rt, bad[0][0], rt)))
+            else:
+                res.ok(dict(function=f.display(), expr=f.expr_text(n['i'])[:60], type=rt, from_types=sorted({it for it, _ in srcs}))
+                       if len(res.samples) < 6 else None, fn=f.display())
+    _fixture_verdict(res, 'signed_arith')
+    res.require_sites(1, 'signed arithmetic on converted unsigned values')
+    return res
+
+
+def _fixture_functions(tag):
+    from . import facts
+    try:
+        u = facts.load_fixture()
+    except Exception:
+        return []
+    return [f for f in u.functions if f.tname.startswith(NS + 'fixture::') and f.name.endswith(tag if tag.startswith('_') else '_' + tag)
+            or (f.tname.startswith(NS + 'fixture::') and tag in f.name)]
+
+
+def _fixture_verdict(res, tag):
+    """The tiny examples of fixtures/positive.cpp are analysed with the library: `bad_<tag>` must be reported and
+    `good_<tag>` must not.  Their findings are then removed from the result (they are not library code); a mismatch
+    makes the rule inconclusive (its machinery no longer recognises what it is meant to recognise)."""
+    fx = [f for f in res.findings if 'fixture::' in f.function]
+    res.findings = [f for f in res.findings if 'fixture::' not in f.function]
+    res.obligations -= len(fx)          # the example that must be reported is not an obligation of the library
+    res.functions = {x for x in res.functions if 'fixture::' not in x}
+    fns = _fixture_functions(tag)
+    bad_reported = any('bad_' in f.function for f in fx)
+    good_reported = any('good_' in f.function for f in fx)
+    if not fns:
+        res.broken('%s: the positive examples of fixtures/positive.cpp could not be analysed' % res.rule)
+    elif not bad_reported or good_reported:
+        res.broken('%s: self-check failed on fixtures/positive.cpp (bad example reported: %s, good example reported: %s)'
+                   % (res.rule, bad_reported, good_reported))
+    else:
+        res.notes.append('self-check: bad_%s reported, good_%s silent (fixtures/positive.cpp)' % (tag, tag))
+
+
+def rule_sorted_range(m):
+    """F-SORTED: binary searches only on ranges that are sorted at that point."""
+    res = RuleResult('F-SORTED', 'std::binary_search / lower_bound / upper_bound / equal_range are applied to [begin, end) of a '
+                                 'local vector only in a state in which it is sorted: empty, one element, or sorted by std::sort '
+                                 'since the last append (their precondition; on an unsorted range the answer is arbitrary)')
+    SEARCH = ('std::binary_search', 'std::lower_bound', 'std::upper_bound', 'std::equal_range')
+    for f in list(m.fns) + _fixture_functions('sorted_search'):
+        if not f.tname.startswith(NS) or not f.has_cfg:
+            continue
+        tt = Terms(f)
+        u = f.unit
+        uses = []
+        for n in f.nodes:
+            if n['k'] == 'CallExpr' and 'callee' in n and u.decl(n['callee'])['tname'] in SEARCH:
+                a = [tt.t(x) for x in n['args']]
+                if len(a) >= 3 and a[0][0] == 'mcall' and a[0][1].endswith('::begin') and a[1][0] == 'mcall' and \
+                        a[1][1].endswith('::end') and a[0][2] == a[1][2] and a[0][2][0] == 'var':
+                    uses.append((n, a[0][2]))
+        for (un, V) in uses:
+            res.sites += 1
+            events = {}
+            for n in f.nodes:
+                if n['k'] == 'CXXMemberCallExpr' and 'callee' in n and tt.t(n.get('obj', -1)) == V:
+                    nm = u.decl(n['callee'])['name']
+                    if nm in ('push_back', 'emplace_back', 'insert', 'emplace', 'resize', 'assign'):
+                        events[n['i']] = 'append'
+                    elif nm == 'clear':
+                        events[n['i']] = 'clear'
+                if n['k'] == 'CallExpr' and 'callee' in n and u.decl(n['callee'])['tname'] in ('std::sort', 'std::stable_sort'):
+                    a = [tt.t(x) for x in n['args']]
+                    if len(a) >= 2 and a[0][0] == 'mcall' and a[0][2] == V and a[1][0] == 'mcall' and a[1][2] == V:
+                        events[n['i']] = 'sort'
+                if n['k'] == 'DeclStmt' and V[1] in n['decls']:
+                    ix = n['decls'].index(V[1])
+                    it0 = tt.t(n['c'][ix]) if ix < len(n['c']) and n['c'][ix] >= 0 else ('ctor', '', ())
+                    a0 = [x for x in it0[2] if not (x[0] == 'ctor' and 'allocator' in x[1])] if it0[0] == 'ctor' else None
+                    events[n['i']] = 'init0' if a0 == [] else 'initN'
+            events[un['i']] = 'search'
+            RANK = {'EMPTY': 0, 'ONE': 1, 'SORTED': 2}
+            IN = {b: None for b in f.blocks}
+            IN[f.entry] = 'EMPTY'
+            bad = []
+
+            def step(st, nid, record):
+                k = events.get(nid)
+                if k is None:
+                    return st
+                if k == 'init0' or k == 'clear':
+                    return 'EMPTY'
+                if k == 'initN':
+                    return 'DIRTY'
+                if k == 'append':
+                    return 'ONE' if st == 'EMPTY' else 'DIRTY'
+                if k == 'sort':
+                    return 'SORTED'
+                if k == 'search' and st not in RANK and record:
+                    bad.append(nid)
+                return st
+            work = [f.entry]
+            it = 0
+            while work and it < 5000:
+                it += 1
+                b = work.pop()
+                st = IN[b]
+                if st is None:
+                    continue
+                for e in f.blocks[b].elems:
+                    st = step(st, e, False)
+                for sx in f.blocks[b].succs:
+                    if sx is None or sx < 0:
+                        continue
+                    old = IN[sx]
+                    if old is None or old == st:
+                        new = st
+                    elif old in RANK and st in RANK:
+                        new = old if RANK[old] >= RANK[st] else st
+                    else:
+                        new = 'DIRTY'
+                    if new != old:
+                        IN[sx] = new
+                        work.append(sx)
+            for b, st in IN.items():
+                if st is None:
+                    continue
+                for e in f.blocks[b].elems:
+                    st = step(st, e, True)
+            if bad:
+                res.fail(Finding('F-SORTED', f.display(), 'binary search on an unsorted range', f.nloc(bad[0]),
+                                 '`%s` is reached in a state in which `%s` has been appended to without being sorted: the '
+                                 'search requires a sorted range, so membership is answered arbitrarily (e.g. an element '
+                                 'appended out of order is not found)' % (f.expr_text(un['i'])[:60], show(V, u))))
+            else:
+                res.ok(dict(function=f.display(), search=f.expr_text(un['i'])[:60], state='sorted at every use'), fn=f.display())
+    _fixture_verdict(res, 'sorted_search')
+    return res
